@@ -243,6 +243,121 @@ def comment_rule(repo: Repo, rep: Report, rid: str) -> None:
     rep.check([call_name(c) for c in calls][:2] == ["_remove_comments", "scan"], rid, f"{pr.key}:order", "comments removed before scanning", "comments are not removed before scanning", pr.loc())
 
 
+def comment_language_rule(repo: Repo, rep: Report, rid: str, max_len: int) -> None:
+    """Bounded language comparison of the comment-stripping regex *literal* against the definition of C comments.
+
+    The pattern is data: it is extracted from the source as a constant and handed to the standard library's regex engine
+    together with every string of a small alphabet up to a bounded length.  No code of the repository runs.
+    """
+    import itertools
+    import re
+
+    rep.rule(rid, "the comment-stripping pattern (a regex literal) matches every well-formed /* ... */ and // ... comment and nothing but it, "
+                  "exhaustively over the alphabet {/, *, a, space, newline} up to a bounded length")
+    outer = repo.func("parser.py", "TokenParser._remove_comments")
+    pat = [s for s in walk_body(outer.node.body) if isinstance(s, ast.Assign) and norm(s.targets[0]) == "pattern"]
+    comp = [c for c in walk_body(outer.node.body) if isinstance(c, ast.Call) and norm(c.func) == "re.compile"]
+    if not pat or not is_const(pat[0].value) or not comp:
+        raise AnalysisError("_remove_comments: pattern literal / re.compile call not found")
+    flags = 0
+    if len(comp[0].args) > 1:
+        for nm in re.findall(r"re\.([A-Z]+)", norm(comp[0].args[1])):
+            flags |= getattr(re, nm)
+    try:
+        rx = re.compile(const_value(pat[0].value), flags)
+    except re.error as e:
+        rep.fail(rid, f"{outer.key}:pattern", f"the comment pattern does not compile: {e}", outer.loc())
+        return
+    alphabet = "/*a \n"
+    n = 0
+    bad = None
+    for ln in range(0, max_len + 1):
+        for body in itertools.product(alphabet, repeat=ln):
+            body = "".join(body)
+            n += 1
+            if "*/" not in body:
+                c = "/*" + body + "*/"
+                m = rx.search("x" + c + "y")
+                if not (m and m.group(0) == c and m.group(2) == c):
+                    bad = bad or (c, m.group(0) if m else None)
+            if "\n" not in body:
+                c = "//" + body
+                m = rx.search("x " + c + "\ny")
+                if not (m and m.group(0) == c and m.group(2) == c):
+                    bad = bad or (c, m.group(0) if m else None)
+    rep.info["comment_strings_enumerated"] = n
+    rep.check(bad is None, rid, f"{outer.key}:pattern-language", f"all {n} comment bodies up to length {max_len} are matched exactly",
+              f"the comment pattern does not match the comment {bad[0]!r} as a whole (it matches {bad[1]!r}): its text would reach the scanner as tokens" if bad else "",
+              outer.loc(pat[0]))
+
+
+def name_strip_rule(repo: Repo, rep: Report, rid: str) -> None:
+    rep.rule(rid, "names cut out of whitespace-tolerant token groups are stripped before they leave the parser helpers (they become type and field names)")
+    fi = repo.func("parser.py", "TokenParser._parse_field_type")
+    rets = [r for r in walk_body(fi.node.body) if isinstance(r, ast.Return)]
+    nm = [rx for rx, n_, _c in token_table(repo) if n_ == "NAME"]
+    group_ws = False
+    if nm:
+        for el in RL.parse(nm[0]):
+            if el.kind == "group" and el.name == "name":
+                group_ws = any(RL.is_ws_repeat(k) for k in el.kids)
+    if not group_ws:
+        rep.ok(rid, f"{fi.key}:name", "the 'name' group of the NAME token cannot contain whitespace", fi.loc(), nontrivial=False)
+        return
+    for r in rets:
+        v = r.value
+        elts = v.elts if isinstance(v, ast.Tuple) else [v]
+        name_el = next((e for e in elts if "name" in norm(e)), None)
+        stripped = isinstance(name_el, ast.Call) and call_name(name_el) == "strip"
+        if not stripped and isinstance(name_el, ast.Name):
+            stripped = any(isinstance(s2, ast.Assign) and norm(s2.targets[0]) == name_el.id and isinstance(s2.value, ast.Call) and call_name(s2.value) == "strip"
+                           for s2 in walk_body(fi.node.body))
+        rep.check(stripped, rid, f"{fi.key}:return name", "the name is stripped", f"_parse_field_type returns '{norm(name_el)}' without stripping it although the NAME "
+                  f"token's name group may contain whitespace (typedef uint32 * ptr32; would register the alias ' ptr32')", fi.loc(r))
+    nf = repo.func("parser.py", "TokenParser._names")
+    apps = [c for c in walk_body(nf.node.body) if isinstance(c, ast.Call) and call_name(c) in ("append", "extend")]
+    rep.check(bool(apps) and all("strip()" in norm(c) for c in apps), rid, f"{nf.key}:names", "every collected name is stripped", "_names collects un-stripped names", nf.loc())
+
+
+def factory_memo_rule(repo: Repo, rep: Report, rid: str) -> None:
+    rep.rule(rid, "type factories keep no lossy memo: a cstruct._make_* factory that stores into a mapping on the instance must key it by the "
+                  "objects that determine the result (the element / target type itself), never by a name derived from them")
+    from ..callgraph import CallGraph
+    from ..effects import EffectAnalysis
+
+    cg = CallGraph(repo)
+    ea = EffectAnalysis(repo, cg)
+    n = 0
+    for fi in repo.cls("cstruct").methods.values():
+        if not fi.name.startswith("_make_"):
+            continue
+        n += 1
+        stores = [e for e in ea.effects(fi) if e.root_class in ("self-shared", "global", "cls") and e.what in ("store", "mutator:setdefault", "mutator:update")]
+        if not stores:
+            rep.ok(rid, f"{fi.key}:memo", "pure factory (stores nothing on the instance)", fi.loc())
+            continue
+        for e in stores:
+            tgt = e.node.targets[0] if isinstance(e.node, ast.Assign) else None
+            ok = False
+            if isinstance(tgt, ast.Subscript):
+                key_names = {x.id for x in ast.walk(tgt.slice) if isinstance(x, ast.Name)}
+                binds = cg.local_bindings(fi)
+                # expand locals to what they are computed from
+                direct_params = set()
+                for kn in key_names:
+                    if kn in fi.params:
+                        direct_params.add(kn)
+                    for v in binds.get(kn, []):
+                        if isinstance(v, ast.Name) and v.id in fi.params:
+                            direct_params.add(v.id)
+                type_params = [p for p in fi.params[1:] if (fi.annotation(p) or "").startswith(("type[", "T")) or p in ("type_", "target")]
+                ok = all(p in direct_params for p in type_params) and bool(type_params)
+            rep.check(ok, rid, f"{fi.key}:{e.what} {e.target}", "memo keyed by the determining type objects",
+                      f"{fi.qualname} memoises its result in '{e.target}' keyed by something derived from the type (a name), not by the type object itself: two "
+                      f"different types with the same name (nested tags, replaced aliases, another load()) would share one result", fi.loc(e.node))
+    rep.floor(rid, "type factories", n, 6)
+
+
 def run(repo: Repo, rep: Report, tier: str) -> None:
     keyword_rule(repo, rep, "C13.R1")
     gap_rule(repo, rep, "C13.R2")
@@ -250,3 +365,6 @@ def run(repo: Repo, rep: Report, tier: str) -> None:
     alias_table_rule(repo, rep, "C13.R4")
     resolve_rule(repo, rep, "C13.R5")
     comment_rule(repo, rep, "C13.R6")
+    comment_language_rule(repo, rep, "C13.R7", 7 if tier == "thorough" else 5)
+    name_strip_rule(repo, rep, "C13.R8")
+    factory_memo_rule(repo, rep, "C13.R9")
